@@ -277,7 +277,7 @@ def run_shard(args):
         derandomize=False,
         report_multiple_bugs=False,
         suppress_health_check=list(HealthCheck),
-        phases=(Phase.explicit, Phase.generate, Phase.shrink),
+        phases=(Phase.explicit, Phase.generate, Phase.target, Phase.shrink),
         verbosity=Verbosity.quiet,
         stateful_step_count=int(shard.get("steps", 8)),
     )
